@@ -520,17 +520,26 @@ func Run(r *mc.Run) {
 
 	// ---- scenario 3: decoy control.* / data.* members at every position, each under the explored map orders
 	ins = nil
+	var sized []In
 	for _, b := range bases {
 		sm, si := e.sigMember("origin", "K1", b.signed())
 		full := append(append([]gen.ArMember(nil), b.mem...), sm)
 		for _, dc := range e.decoys(b, r.Quick()) {
 			for pos := 0; pos <= len(full); pos++ {
-				ins = append(ins, e.mk(b, "decoy", fmt.Sprintf("decoy %s at position %d", dc.name, pos), "inserted "+dc.name+" at member position "+fmt.Sprint(pos),
-					insertAt(full, pos, dc.mem...), []SigInfo{si}, "origin", []string{"K1"}, true))
+				in := e.mk(b, "decoy", fmt.Sprintf("decoy %s at position %d", dc.name, pos), "inserted "+dc.name+" at member position "+fmt.Sprint(pos),
+					insertAt(full, pos, dc.mem...), []SigInfo{si}, "origin", []string{"K1"}, true)
+				if strings.HasSuffix(dc.name, " bytes)") {
+					// the decoy-SIZE variants: signer's keyring only; quick: before, between and after
+					if !r.Quick() || pos == 0 || pos == 2 || pos == len(full) {
+						sized = append(sized, in)
+					}
+					continue
+				}
+				ins = append(ins, in)
 			}
 		}
 	}
-	ins = e.widen(ins, 1, otherRings)
+	ins = append(e.widen(ins, 1, otherRings), sized...)
 	e.scenario("decoy-members", map[string]interface{}{"keyrings": fmt.Sprintf("[K1] and %v", otherRings), "bases": names(bases), "decoys": decoyNames(e, bases[0], r.Quick()), "positions": "every member position 0..4",
 		"orders": c14.MapOrderNote, "repetitions_per_variant": c14.MapOrderReps}, ins, 1)
 
@@ -637,6 +646,9 @@ func Run(r *mc.Run) {
 			swapNames[full[mi].Name] = alts
 			for _, alt := range alts {
 				for pos := 0; pos <= len(full); pos++ {
+					if r.Quick() && pos%2 == 1 {
+						continue // quick: positions 0, 2, 4 (before, between, after); thorough: every position
+					}
 					ms := append([]gen.ArMember(nil), full...)
 					ms[mi].Data = repl[mi]
 					ms = insertAt(ms, pos, gen.ArMember{Name: alt, Data: full[mi].Data})
@@ -655,9 +667,9 @@ func Run(r *mc.Run) {
 	if !r.Quick() {
 		swapRings = [][]string{{"K2", "K1"}, {}, {NilRing}}
 	}
-	ins = e.widen(ins, 5, swapRings)
+	ins = e.widen(ins, r.Pick(3, 5), swapRings)
 	c14.MapOrderBound = r.Pick(1, 2)
-	e.scenario("swapped-members", map[string]interface{}{"keyrings": fmt.Sprintf("[K1] for every variant; %v for position 0 of every (member, name)", swapRings), "bases": names(bases[:2]), "kept_original_names": swapNames, "positions": "every member position 0..4",
+	e.scenario("swapped-members", map[string]interface{}{"keyrings": fmt.Sprintf("[K1] for every variant; %v for position 0 of every (member, name)", swapRings), "bases": names(bases[:2]), "kept_original_names": swapNames, "positions": "quick: 0, 2, 4 (before, between, after); thorough: every member position 0..4",
 		"replacement":                "debian-binary -> \"2.0\\nevil\\n\"; control/data -> the attacker's tar in the same encoding; _gpgorigin -> K2's signature (keyring stays [K1])",
 		"names_longer_than_16_bytes": "dropped (ar name field)", "map_order_deviation_bound": c14.MapOrderBound, "orders": c14.MapOrderNote}, ins, 1)
 	c14.MapOrderBound = 2
@@ -837,6 +849,12 @@ func (e *env) decoys(b base, quick bool) []decoy {
 	out = append(out,
 		decoy{b.mem[1].Name + " (same name, Depends changed)", []gen.ArMember{{Name: b.mem[1].Name, Data: comp(b.model.ControlComp, changed.ControlTar())}}},
 		decoy{b.mem[2].Name + " (same name, attacker's payload)", []gen.ArMember{{Name: b.mem[2].Name, Data: comp(b.model.DataComp, evilData)}}})
+	// decoy SIZE: a second control.* / data.* member that is empty, one byte, a few bytes (the full-size ones are above)
+	for _, n := range []string{"control.tar" + gen.DebCompExt(c0), "data.tar" + gen.DebCompExt(d0), b.mem[1].Name, b.mem[2].Name, "control.sig", "data.img"} {
+		for _, body := range [][]byte{{}, {0}, []byte("garbage")} {
+			out = append(out, decoy{fmt.Sprintf("%s (%d bytes)", n, len(body)), []gen.ArMember{{Name: n, Data: body}}})
+		}
+	}
 	return out
 }
 
